@@ -177,7 +177,7 @@ def generate(run_seed: int, tier: str, *, faults: bool) -> dict:
             ops.append({"op": "combo", "h": h["id"], "new": new["id"], "staged": rng.random() < 0.4, "ids": sigma()[:4]})
             continue
         if kind in ("follow", "fault"):
-            pool = handles if kind == "follow" else [h for h in handles if h["kind"] in ("root", "restart", "subset")]
+            pool = handles if kind == "follow" else [h for h in handles if h["kind"] in ("root", "restart", "subset", "combo")]
             h = rng.choice(pool)
             op = {"op": "follow", "h": h["id"], "ids": sigma(), "entry": rng.choice(entries),
                   "index": core.weighted(rng, [("rid", 3), ("range", 2), ("str", 1)])}
@@ -889,7 +889,9 @@ def execute(scenario: dict, env: Any, *, prop: str) -> dict:
                 except Exception as e:  # noqa: BLE001
                     raise Violation("c04:restart-failed", {"how": "ModelSpecs(a=spec, b=other spec) + pickle", "error": repr(e)[:300]})
                 _ = clone
-                handles[op["new"]] = {"spec": combo, "mm": None, "ref": ComboRef([("a", h["ref"]), ("b", ref1)]), "kind": "combo", "depth": h["depth"] + 1, "born": step,
+                both_atoms = list(h.get("atoms", atoms)) + list(sc["formula2"]["atoms"])
+                handles[op["new"]] = {"atoms": both_atoms, "vars": sorted({v for a in both_atoms for v in a["vars"]}),
+                                      "spec": combo, "mm": None, "ref": ComboRef([("a", h["ref"]), ("b", ref1)]), "kind": "combo", "depth": h["depth"] + 1, "born": step,
                                       "names": [h["names"][0], names1[0]], "shares_state_with": op["h"]}
                 last_touch[op["new"]] = ["restart"]
                 sig.append(["combo"])
